@@ -106,3 +106,18 @@ impl DirH {
             r is Ok ==> final(fs).dur_dir == old(fs).vol_dir, r is Err ==> final(fs).dur_dir == old(fs).dur_dir,
     { unimplemented!() }
 }
+
+// names (C06): config.rs millis_str_after, verified in unit c06_names: the name it returns is the decimal form of a value above `floor`
+pub uninterp spec fn name_value(n: Seq<char>) -> Option<u64>;     // Some(v) iff the name parses as u64 (str::parse)
+#[verifier::external_body]
+pub fn millis_str_after(floor: u64) -> (r: String) ensures name_value(r@) matches Some(v) && v > floor { unimplemented!() }
+
+
+impl WalPathManager {
+    // newest_wal_file_millis: read_dir + parse of every file name (std iterator chain): assumed contract (A-FS: the listing shows
+    // every entry of the volatile directory): an upper bound of every numeric file name in the instance directory
+    #[verifier::external_body]
+    pub fn newest_wal_file_millis(&self, fs: &Fs) -> (r: u64)
+        ensures forall|n: Seq<char>| #[trigger] fs.vol_dir@.contains_key(join_spec(self.root.p@, n)) && name_value(n) is Some ==> name_value(n)->Some_0 <= r
+    { unimplemented!() }
+}
